@@ -93,14 +93,14 @@ Proof.
   induction e as [l | a IHa b IHb | a IHa v | a IHa b IHb | a IHa b IHb | a IHa s | a IHa s | a IHa v | a IHa v
                  | k a IHa b IHb]; intros h x out Hwf Hpre; cbn [run_ip pure wfop] in *.
   - apply leaf_ok; assumption.
-  - destruct Hwf as [Hwa Hwb]. split_alias Hpre; try rewrite Hl in *; exec; absorb1; absorb_ip IHa; absorb_ip IHb; absorb; finish.
-  - split_alias Hpre; try rewrite Hl in *; exec; absorb_ip IHa; absorb; finish.
-  - destruct Hwf as [Hwa Hwb]. split_alias Hpre; try rewrite Hl in *; exec; absorb1; absorb_ip IHb; absorb_ip IHa; absorb; finish.
-  - destruct Hwf as [Hwa Hwb]. split_alias Hpre; try rewrite Hl in *; exec; absorb1; absorb_ip IHa; absorb_ip IHb; absorb; finish.
-  - split_alias Hpre; try rewrite Hl in *; exec; absorb_ip IHa; absorb; finish.
-  - split_alias Hpre; try rewrite Hl in *; exec; absorb1; absorb1; absorb_ip IHa; absorb; finish.
-  - split_alias Hpre; try rewrite Hl in *; exec; absorb_ip IHa; absorb; finish.
-  - split_alias Hpre; try rewrite Hl in *; exec; absorb1; absorb1; absorb_ip IHa; absorb; finish.
+  - destruct Hwf as [Hwa Hwb]. unfold ip_OperatorSum. split_alias Hpre; try rewrite Hl in *; exec; absorb1; absorb_ip IHa; absorb_ip IHb; absorb; finish.
+  - unfold ip_OperatorVectorSum. split_alias Hpre; try rewrite Hl in *; exec; absorb_ip IHa; absorb; finish.
+  - destruct Hwf as [Hwa Hwb]. unfold ip_OperatorComp. split_alias Hpre; try rewrite Hl in *; exec; absorb1; absorb_ip IHb; absorb_ip IHa; absorb; finish.
+  - destruct Hwf as [Hwa Hwb]. unfold ip_OperatorPointwiseProduct. split_alias Hpre; try rewrite Hl in *; exec; absorb1; absorb_ip IHa; absorb_ip IHb; absorb; finish.
+  - unfold ip_OperatorLeftScalarMult. split_alias Hpre; try rewrite Hl in *; exec; absorb_ip IHa; absorb; finish.
+  - unfold ip_OperatorRightScalarMult. split_alias Hpre; try rewrite Hl in *; exec; absorb1; absorb1; absorb_ip IHa; absorb; finish.
+  - unfold ip_OperatorLeftVectorMult. split_alias Hpre; try rewrite Hl in *; exec; absorb_ip IHa; absorb; finish.
+  - unfold ip_OperatorRightVectorMult. split_alias Hpre; try rewrite Hl in *; exec; absorb1; absorb1; absorb_ip IHa; absorb; finish.
   - destruct Hwf as (Hk & Hwa & Hwb).
     pose proof Hpre as (Hnd & Hbx & Hbo & Hal & Hl).
     destruct (NoDup_firstn_skipn k out Hnd) as (Hnf & Hns & Hdfs).
@@ -192,7 +192,9 @@ Proof.
     - apply above_seq; lia.
     - intros i Hi. rewrite B; [reflexivity | lia | intros Hj; apply in_seq in Hj; lia].
     - lia. }
-  destruct l; try exact Hgen; clear Hgen; exec; cbn [fst snd leaf_pure wf_leaf] in *.
+  destruct l; try exact Hgen; clear Hgen;
+    unfold oop_ScalingOperator, oop_ZeroOperator, oop_ConstantOperator, oop_MultiplyOperator;
+    exec; cbn [fst snd leaf_pure wf_leaf] in *.
   all: try absorb1.
   all: try match goal with |- context [st1 ?G ?a ?b ?hv] => is_var hv;
          assert (W0 : wrote hv (st1 G a b hv) b (G (get hv a))) by (refine (st1_wrote G a b hv _ _); [sd | rewrite Hwf; sd]);
@@ -294,7 +296,9 @@ Theorem run_oop_ok (e : op T) : forall (h : heap) x, diag_ok e (get h x) -> wfop
   post_oop h x (run_oop e x h) (pure e (get h x)).
 Proof.
   induction e as [l | a IHa b IHb | a IHa v | a IHa b IHb | a IHa b IHb | a IHa s | a IHa s | a IHa v | a IHa v
-                 | k a IHa b IHb]; intros h x Hdg Hwf Hbx; cbn [run_oop pure wfop diag_ok] in *.
+                 | k a IHa b IHb]; intros h x Hdg Hwf Hbx; cbn [run_oop pure wfop diag_ok] in *;
+    unfold oop_OperatorSum, oop_OperatorVectorSum, oop_OperatorComp, oop_OperatorPointwiseProduct,
+      oop_OperatorLeftScalarMult, oop_OperatorRightScalarMult, oop_OperatorLeftVectorMult, oop_OperatorRightVectorMult.
   - apply leaf_oop_ok; assumption.
   - destruct Hwf as [Hwa Hwb], Hdg as [Hda Hdb].
     absorb_oop IHa. absorb_oop IHb. absorb. finish_oop.
